@@ -738,3 +738,4 @@ EXPLANATION += (' Location-independent additions: RANK/rank-in-key (wherever (ti
 EXPLANATION += (' Round 6: ' + 'THRESHOLD/scenarios (the events produced for controller values 0, 63, 64, 65, 127, whatever produces them: guarded appends, a conditional expression, a helper function); BRANCH/restrike-paths (path-wise: no path keeps a note of the same pitch in the active list without ending it, under three scenarios).')
 EXPLANATION += (' Round 7: ' + 'BRANCH/note-off-removes-one also locates a removal by a field of the ending note.')
 EXPLANATION += (' Rounds 9-10: ' + 'PITFALL/dead-parameter on apply_sustain_control_changes; PAIR/end-total located as in C11.')
+EXPLANATION += (' Round 11: ' + 'BRANCH/pedal-state-always-recorded; ORD/assumes-sorted shared from C12.')
